@@ -3,6 +3,7 @@ package main
 import (
 	"fmt"
 	"go/token"
+	"go/types"
 	"strings"
 
 	"golang.org/x/tools/go/ssa"
@@ -507,5 +508,77 @@ func runC16(r *Run) {
 
 	r.rule("R8", "trusted wildcard origins keep the label boundary: the wildcard's position is applied to the string it was found in (E5, shared with C19-R5)", func() {
 		wildcardOffsetsOnTheirString(r, r.Fn(csrfPkg, "New"), "New:wildcard-position-on-the-same-string")
+	})
+
+	r.rule("R9", "consuming or deleting a token fails closed: an error of the token store on the delete path is handed up, and the handler does not run when a single-use token could not be consumed (E1, error discipline)", func() {
+		isFallible := func(c callSite) bool {
+			if c.Common.IsInvoke() && c.Common.Method.Name() == "Delete" && strings.HasSuffix(c.Common.Value.Type().String(), "fiber/v3.Storage") {
+				return true
+			}
+			return strings.HasSuffix(c.Name, "session.Session).Save") || strings.HasSuffix(c.Name, "session.Store).Get")
+		}
+		errOf := func(c callSite) ssa.Value {
+			v := c.Value()
+			if v == nil {
+				return nil
+			}
+			if tup, ok := v.Type().(*types.Tuple); ok {
+				for _, ref := range *v.Referrers() {
+					if ex, ok := ref.(*ssa.Extract); ok && ex.Index == tup.Len()-1 {
+						return ex
+					}
+				}
+				return nil
+			}
+			return v
+		}
+		n := 0
+		for _, fn := range []string{"(*storageManager).delRaw", "(*sessionManager).delRaw", "deleteTokenFromStorage"} {
+			f := r.Fn(csrfPkg, fn)
+			res := f.Signature.Results()
+			hasErr := res.Len() > 0 && res.At(res.Len()-1).Type().String() == "error"
+			r.check(hasErr, fn+":reports-failure", r.fpos(f), "returns an error", fn+" has no error result: a failure of the token store while deleting cannot reach the handler, so a single-use token that could not be consumed is accepted and stays valid")
+			if !hasErr {
+				continue
+			}
+			for _, c := range callsIn(f, false) {
+				if !isFallible(c) && !(strings.HasSuffix(c.Name, "Manager).delRaw")) {
+					continue
+				}
+				ev := errOf(c)
+				if ev == nil {
+					r.bad(fmt.Sprintf("%s:%s:error-handed-up", fn, short(c.Name)), r.pos(c.Instr), "the error of "+short(c.Name)+" is discarded")
+					continue
+				}
+				n++
+				handed := false
+				for _, ri := range instrsWhereOne(f, isReturn) {
+					ret := ri.(*ssa.Return)
+					if dependsOn(retOperand(ret, len(ret.Results)-1), func(v ssa.Value) bool { return v == ev }) != nil {
+						handed = true
+					}
+				}
+				r.check(handed, fmt.Sprintf("%s:%s:error-handed-up", fn, short(c.Name)), r.pos(c.Instr), "its error reaches a return of "+fn, "the error of "+short(c.Name)+" is dropped in "+fn)
+			}
+		}
+		r.atLeast("fallible calls on the delete path", n, 4)
+		// the handler: a single-use token that could not be consumed does not admit the request
+		h, final, safeCut, _ := setup()
+		dels := callsMatching(h, false, nameHasSuffix("csrf.deleteTokenFromStorage"))
+		r.need(len(dels) >= 1, "the handler consumes single-use tokens")
+		for i, d := range dels {
+			cut := map[edge]bool{}
+			for e := range safeCut {
+				cut[e] = true
+			}
+			for _, br := range ifsOnValue(h, d.Value()) {
+				if sl, ok := br.nilSlot(true); ok {
+					cut[edge{br.If.Block(), sl}] = true
+				}
+			}
+			_, hit := reach(pointAfter(d.Instr), func(in ssa.Instruction) bool { return in == final }, cut, nil)
+			r.check(d.Value() != nil && len(ifsOnValue(h, d.Value())) > 0 && hit == nil, fmt.Sprintf("handler:consume#%d:failure-rejects", i+1), r.pos(d.Instr), "with the `consumed` edge removed the protected handler is unreachable",
+				"the protected handler is reachable although the single-use token could not be deleted from the store: the request is admitted and the token can be used again")
+		}
 	})
 }
